@@ -396,8 +396,8 @@ def run(report, p):
         if init is None:
             continue
         for n in walk_no_nested(init.node):
-            if isinstance(n, ast.Assign) and isinstance(n.value, ast.Constant) and n.value.value is None:
-                for t in n.targets:
+            if isinstance(n, (ast.Assign, ast.AnnAssign)) and isinstance(n.value, ast.Constant) and n.value.value is None:
+                for t in (n.targets if isinstance(n, ast.Assign) else [n.target]):
                     if isinstance(t, ast.Attribute) and isinstance(t.value, ast.Name) and t.value.id == "self":
                         none_fields.add(t.attr)
     late = none_fields & thread_fields
@@ -485,6 +485,8 @@ def run(report, p):
                 strict = "arithmetic"
             elif isinstance(par, ast.Call) and par.func is n:
                 strict = "call"
+            elif isinstance(par, ast.Call) and any(a_ is n for a_ in par.args) and any(t_ in p.funcs for t_ in p.resolve_call(par, f)):
+                strict = "handed to " + norm(par.func)[:40]  # a helper of the package works with it as with a set value
             if strict is None:
                 continue
             r12.instance(f, n, f"{f.name}: {me} ({strict})")
